@@ -94,7 +94,7 @@ class StoreW(OW):
     def s_gen(self, tid=0, pid=1):
         r = self.r
         if len(self.live_objs(pid)) >= self.max_objs: return False
-        token = r.random() < 0.6; private = r.random() < 0.5
+        token = (r.random() < 0.6) or getattr(self, 'force_token', False); private = r.random() < 0.5
         s = self.pick_sess_for_new(pid, token, private)
         if not s: return False
         ref = self.new_obj()
@@ -110,7 +110,7 @@ class StoreW(OW):
     def s_genpair(self, tid=0, pid=1):
         r = self.r
         if len(self.live_objs(pid)) >= self.max_objs - 1: return False
-        token = r.random() < 0.6; private = r.random() < 0.5
+        token = (r.random() < 0.6) or getattr(self, 'force_token', False); private = r.random() < 0.5
         s = self.pick_sess_for_new(pid, token, private)
         if not s: return False
         n1 = self.new_obj(); n2 = self.new_obj()
@@ -124,7 +124,7 @@ class StoreW(OW):
     def s_unwrap(self, tid=0, pid=1):
         r = self.r
         if len(self.live_objs(pid)) >= self.max_objs: return False
-        token = r.random() < 0.6; private = r.random() < 0.5
+        token = (r.random() < 0.6) or getattr(self, 'force_token', False); private = r.random() < 0.5
         s = self.pick_sess_for_new(pid, token, private)
         if not s: return False
         wks = self.usable(pid, ["aes"], same_tok=s.tok)
@@ -148,7 +148,7 @@ class StoreW(OW):
     def s_derive(self, tid=0, pid=1):
         r = self.r
         if len(self.live_objs(pid)) >= self.max_objs: return False
-        token = r.random() < 0.6; private = r.random() < 0.5
+        token = (r.random() < 0.6) or getattr(self, 'force_token', False); private = r.random() < 0.5
         s = self.pick_sess_for_new(pid, token, private)
         if not s: return False
         bases = self.usable(pid, ["aes", "generic", "ec_priv"], same_tok=s.tok)
